@@ -20,6 +20,26 @@ _RE_STR_BOUNDARY = re.compile("^[ -~]{0,200}[!-~]$")
 _RE_BIN_BOUNDARY = re.compile(b"^[ -~]{0,200}[!-~]$")
 
 
+def read_length(read: Callable, length: int):
+    """Call read until it has returned length bytes or the input ends.
+
+    Input, which gets its data from network, can return less bytes than it
+    was asked for.
+
+    >>> read_length(BytesIO(b"abcdef").read, 4)
+    b'abcd'
+    """
+    data = read(length)
+    if length < 0 or not isinstance(data, bytes):
+        return data
+    while data and len(data) < length:
+        more = read(length - len(data))
+        if not more:
+            break
+        data += more
+    return data
+
+
 def valid_boundary(data):
     """Check valid boundary label.
 
@@ -554,7 +574,7 @@ class FieldStorageParser:
 
     def read_urlencoded(self):
         """Internal: read data in query string format."""
-        qs = self.input.read(self.length)
+        qs = read_length(self.input.read, self.length)
         if not isinstance(qs, bytes):
             msg = f"{self.input} should return bytes, got {type(qs).__name__}"
             raise ValueError(msg)
